@@ -71,11 +71,19 @@ def run(ctx):
         for _ in range(2 if ctx.quick() else 12):
             pat, t0, tf, dt = span(rng)
             mid = t0 + (tf - t0) * rng.choice([0.25, 0.5, 0.6])
-            plan = rng.choice(["there-and-back", "continue", "back-beyond-start", "reset-between"])
+            plan = rng.choice(["there-and-back", "continue", "back-beyond-start", "reset-between", "exact-grid"])
+            if plan == "exact-grid":
+                # legs that the step divides exactly in floating point: a full (unclipped) step lands on the target of the call
+                t0 = rng.choice([0.0, -3.0, 16.0, -0.5])
+                dirn = rng.choice([1.0, -1.0])
+                dt = 0.25
+                tf = t0 + 3.0 * dirn
+                mid = t0 + 1.0 * dirn
             ops = {"there-and-back": [("int", None, {}), ("int", t0, {})],
                    "continue": [("int", mid, {}), ("int", None, {})],
                    "back-beyond-start": [("int", mid, {}), ("int", t0 - (tf - t0) * 0.5, {})],
-                   "reset-between": [("int", None, {}), ("reset",), ("int", mid, {})]}[plan]
+                   "reset-between": [("int", None, {}), ("reset",), ("int", mid, {})],
+                   "exact-grid": [("int", mid, {}), ("int", mid + (mid - t0), {}), ("int", None, {})]}[plan]
             sc = loopsim.Scenario(cls, [("new", t0, tf, dt)] + ops, rhs=auto_rhs, y0=np.array([1.0, 0.3]))
             try:
                 sc.run_impl()
@@ -88,11 +96,16 @@ def run(ctx):
                 if op[0] == "reset":
                     t_now = t0
                     cur = abs(dt)         # reset() restores the step given to the constructor
-                if op[0] != "int" or not rec["log"]:
+                if op[0] != "int":
                     continue
-                hs = [e["h"] for e in rec["log"]]
                 target = tf if op[1] is None else op[1]
                 dist = abs(target - t_now)
+                if not rec["log"]:
+                    # a call to a target that is a whole step or more away must take steps
+                    ctx.oracle("requests-equal-dt-across-calls", dist < 1e-9, dict(inp, call_target=target, start=t_now, step_in_force=cur), key="call-takes-no-step",
+                               what="integrate(%r) from %r made no request to the integrator although the target is %.3g away" % (target, t_now, dist))
+                    continue
+                hs = [e["h"] for e in rec["log"]]
                 # the step in force is the requested one; only a call whose whole span is shorter than it halves it to half that span
                 expected = cur if cur <= dist else 0.5 * dist
                 first = abs(hs[0])
